@@ -64,6 +64,14 @@ CLAIMED = {
              "disjointness is bounded-exhaustive (N<=7), assumed as contract inside swap(); swap_interval proved for {1,2,3,10,64}; "
              "pipes are FIFO (assumed)",
         ref="3/C08"),
+    "C09": dict(
+        category="exploration",
+        text="Bounded stand-in (no proof obligations yet): every sampler class x {plain, bounds, temperature/non-default mass, "
+             "non-negativity} x save points {0,1,99,100,101,150 steps}: save, load, compare stored state, tuning state, bounds and "
+             "read-outs, then copy the generator states and compare 30 further steps sample for sample.",
+        note="bounded, never counted as proved; the contract-level read-set/round-trip obligations of DESIGN 3/C09 are not built yet",
+        technique="bounded run-time contract evaluation on the real save()/load() (stand-in for the planned read-set / round-trip contracts)",
+        ref="3/C09"),
     "C13": dict(
         text="Proof: for every sample length, column count and fraction, the interval returned by the real sample_hdi code has "
              "two sorted sample values L=floor(f*n) positions apart as end points (so it holds L+1 > f*n points), no window of "
@@ -90,7 +98,7 @@ def main():
             "evidence_file": f"evidence/{pid}.json",
             "replay_cmd_template": f"./check {pid} --replay {{path}}",
             "engine": "pyvc",
-            "level_claimed": {"category": "proof", "text": c["text"], "design_ref": c["ref"]},
+            "level_claimed": {"category": c.get("category", "proof"), "text": c["text"], "design_ref": c["ref"]},
             "level_note": c["note"],
             "technique": c.get("technique", "contract-based deductive verification: sidecar contracts, VCs generated from the real "
                          "Python AST (pyvc), discharged by z3/cvc5; bounded run-time contract evaluation as stand-in/replay"),
